@@ -11,6 +11,7 @@
  *   cbmode : cb    callback installed, returns 1 outside the CORRUPT phase
  *            cb0   callback installed, returns 0 outside the CORRUPT phase (must not matter)
  *            cbn   like cb, but registered with a NULL user argument
+ *            cbi   like cb; inside every CORRUPT callback another manager is allocated and initialised (NEST line if that fails)
  *            nocb  no callback installed (the sets are ignored)
  *   set    : "-" or comma separated vector ids to corrupt; an id is a 0-based ordinal (count of
  *            START events seen before the vector's own) or <type>:<descr>
@@ -58,7 +59,10 @@ selected(const struct ctx *c)
         return c->cur_selected;
 }
 
-static struct ctx *g_ctx; /* cbmode cbn: the callback is registered with a NULL user argument (as in the README) */
+static struct ctx *g_ctx;
+static const char *g_nest_init; /* cbmode cbi: init function of the nested manager */
+static uint64_t g_nest_flags;
+static void do_init(IMB_MGR *m, const char *init); /* cbmode cbn: the callback is registered with a NULL user argument (as in the README) */
 
 static int
 callback(void *arg, const IMB_SELF_TEST_CALLBACK_DATA *data)
@@ -88,6 +92,19 @@ callback(void *arg, const IMB_SELF_TEST_CALLBACK_DATA *data)
                                 c->cur_selected = 1;
         } else if (strcmp(ph, IMB_SELF_TEST_PHASE_CORRUPT) == 0) {
                 ret = selected(c) ? 0 : 1;
+                if (g_nest_init != NULL) {
+                        /* cbmode cbi: while this manager is in the middle of a known-answer test the application
+                         * initialises another, independent manager (nothing corrupted there): neither may notice */
+                        IMB_MGR *other = alloc_mb_mgr(g_nest_flags);
+
+                        if (other != NULL) {
+                                do_init(other, g_nest_init);
+                                if (other->imb_errno != 0 || !(other->features & IMB_FEATURE_SELF_TEST_PASS))
+                                        printf("NEST %d %s %s errno=%d pass=%d\n", c->phase, ty, de, other->imb_errno,
+                                               (other->features & IMB_FEATURE_SELF_TEST_PASS) ? 1 : 0);
+                                free_mb_mgr(other);
+                        }
+                }
         } else if (strcmp(ph, IMB_SELF_TEST_PHASE_PASS) != 0 &&
                    strcmp(ph, IMB_SELF_TEST_PHASE_FAIL) != 0) {
                 c->bad++;
@@ -239,7 +256,7 @@ main(int argc, char **argv)
                 if (sscanf(line, "%15s %u %15s %7999s", init, &flags, cbm, sets) != 4 ||
                     (strcmp(init, "sse") && strcmp(init, "avx2") && strcmp(init, "avx512") &&
                      strcmp(init, "auto")) ||
-                    flags > 3 || (strcmp(cbm, "cb") && strcmp(cbm, "cb0") && strcmp(cbm, "nocb") && strcmp(cbm, "cbn"))) {
+                    flags > 3 || (strcmp(cbm, "cb") && strcmp(cbm, "cb0") && strcmp(cbm, "nocb") && strcmp(cbm, "cbn") && strcmp(cbm, "cbi"))) {
                         printf("CASE %d BADLINE\nEND %d\n", n, n);
                         continue;
                 }
@@ -299,6 +316,8 @@ main(int argc, char **argv)
                                 printf("BADSET %d\n", ph);
                                 break;
                         }
+                        g_nest_init = strcmp(cbm, "cbi") == 0 ? init : NULL;
+                        g_nest_flags = (uint64_t) flags;
                         if (strcmp(cbm, "nocb") == 0) {
                                 if (imb_self_test_set_cb(m, NULL, NULL) != 0)
                                         printf("SETCBFAIL %d\n", ph);
